@@ -268,6 +268,8 @@ class SafeLearner(Learner):
         return method(*args,**kwargs)
 
     def _method2(self,method,args,kwargs):
+        n_rows = SafeLearner.batch_size(args)
+        args = [ a if a is not None else [None]*n_rows for a in args ] #a missing argument (e.g. probability=None) is missing in every row
         pred = [ method(*a,**{k:v[i] for k,v in kwargs.items()}) for i,a in enumerate(zip(*args)) ]
         if not pred:
             raise CobaException(
